@@ -19,6 +19,7 @@ use lock_api::{Mutex as LockApiMutex, RawMutex};
 
 /// Tracks how the future had interacted with the mutex
 #[derive(PartialEq)]
+#[cfg_attr(futures_intrusive_verif, derive(Debug))]
 enum PollState {
     /// The task has never interacted with the mutex.
     New,
@@ -33,6 +34,7 @@ enum PollState {
 
 /// Tracks the MutexLockFuture waiting state.
 /// Access to this struct is synchronized through the mutex in the Event.
+#[cfg_attr(futures_intrusive_verif, derive(Debug))]
 struct WaitQueueEntry {
     /// The task handle of the waiting task
     task: Option<Waker>,
@@ -51,6 +53,7 @@ impl WaitQueueEntry {
 }
 
 /// Internal state of the `Mutex`
+#[cfg_attr(futures_intrusive_verif, derive(Debug))]
 struct MutexState {
     is_fair: bool,
     is_locked: bool,
@@ -531,12 +534,23 @@ mod verif_hooks {
             snap_list(&state.waiters, &mut snap, &describe);
             snap
         }
+
+        /// `Debug` rendering of the complete internal state (all fields,
+        /// including ones this hook does not know about)
+        pub fn verif_debug(&self) -> alloc::string::String {
+            alloc::format!("{:?}", *self.state.lock())
+        }
     }
 
     impl<'a, MutexType: RawMutex, T> GenericMutexLockFuture<'a, MutexType, T> {
         /// Describes the wait node of this future
         pub fn verif_node(&self) -> NodeSnap {
             snap_list_node(&self.wait_node, &describe)
+        }
+
+        /// `Debug` rendering of the wait node of this future
+        pub fn verif_node_debug(&self) -> alloc::string::String {
+            alloc::format!("{:?}", self.wait_node)
         }
     }
 }
